@@ -241,10 +241,18 @@ func runOuter(w *World, outer string, txKey int) {
 
 func submit(w *World, j int) {
 	ts := w.H.Chain.LastBlockTimestamp()
-	b, _, err := w.request(j, ts)
+	b, key, err := w.request(j, ts)
 	if err != nil {
 		return
 	}
+	w.reqMu.Lock()
+	if w.judging {
+		if w.attempted == nil {
+			w.attempted = map[string]int64{}
+		}
+		w.attempted[w.idByKey[key]] = ts
+	}
+	w.reqMu.Unlock()
 	var r *ledger.TransactionRequest
 	if json.Unmarshal(b, &r) != nil || r == nil {
 		return
@@ -393,6 +401,7 @@ func onePlacement(sp placementSpec) (out placementOutcome) {
 		rc := newRunCtx(w, 1)
 		rc.progress = make([]atomic.Int64, 1)
 		prepare(w)
+		w.judging = sp.Table == "dynamic-async"
 		if order == 0 {
 			runInner(w, rc, sp.Inner, 3)
 			runOuter(w, sp.Outer, 3)
@@ -416,8 +425,11 @@ func onePlacement(sp placementSpec) (out placementOutcome) {
 	rc := newRunCtx(w, 1)
 	rc.progress = make([]atomic.Int64, 1)
 	prepare(w)
+	w.judging = sp.Table == "dynamic-async"
+	async := sp.Table == "dynamic-async"
+	innerDone := make(chan struct{})
 	h.action = func() {
-		done := make(chan struct{})
+		done := innerDone
 		go func() {
 			defer close(done)
 			defer func() {
@@ -427,6 +439,15 @@ func onePlacement(sp placementSpec) (out placementOutcome) {
 			}()
 			runInner(w, rc, sp.Inner, 3)
 		}()
+		if async {
+			// the inner operation STARTS here (it reads what it reads) and may have to wait for a lock the outer one
+			// holds: give it time to get there, then let the outer operation go on; it finishes afterwards
+			select {
+			case <-done:
+			case <-time.After(150 * time.Millisecond):
+			}
+			return
+		}
 		select {
 		case <-done:
 		case <-time.After(3 * time.Second):
@@ -455,6 +476,14 @@ func onePlacement(sp placementSpec) (out placementOutcome) {
 	out.Fired = h.fired.Load()
 	if out.Blocked {
 		return
+	}
+	if async && out.Fired {
+		select {
+		case <-innerDone:
+		case <-time.After(3 * time.Second):
+			out.Blocked = true
+			return
+		}
 	}
 	bad, n := failedInvariants(w)
 	out.Checks += n
@@ -534,6 +563,13 @@ func runPlacements(tablesPath, work string, seed int64, sel string, workers int)
 			k := "TransactionsPool.Validate@" + canon + "/" + in
 			specs = append(specs, placementSpec{"TransactionsPool.Validate", where, canon, in, "dynamic-only", "C16/placement/" + k})
 		}
+	}
+	// a submission that STARTS inside the tick's AddBlock call (it reads the tip, then has to wait for the pool lock the
+	// tick holds) and finishes after the tick: what it read before the block was appended must not decide its admission
+	{
+		where, canon := hookFor("TransactionsPool.Validate", "Blockchain.AddBlock")
+		k := "TransactionsPool.Validate@" + canon + "/" + txRoot + ":async"
+		specs = append(specs, placementSpec{"TransactionsPool.Validate", where, canon, txRoot, "dynamic-async", "C16/placement/" + k})
 	}
 	// a round that adopts one more block — dated as the tick's own slot — between the tick's reads and its AddBlock
 	for _, lab := range []string{"Blockchain.LastBlockTransactions", "UtxosRegistry.Copy", "Blockchain.AddBlock"} {
